@@ -69,4 +69,16 @@ theorem source_read_frame_stays_in_step {R : Type} (decode : Bytes → Option R)
           subst h1' h2' h3'
           exact ⟨rfl, by rw [List.drop_drop, Nat.add_comm], hd⟩
 
+/-- **`serve.rs::serve`, translated on this run, is the model's `serve`** — for every input byte string and every tree: the
+prologue is read and tested BEFORE anything else (a short one ends the session as an I/O error, a wrong one as a bad
+prologue: no reply, the tree as it was), then frames are read by the translated `read_frame` and dispatched — `Hello` and
+`List` answered in place, `Get` / `Put` / `Delete` handed to their handlers (the model's `handle`; `handle_put`,
+`handle_delete` and `read_frame` are translated on their own), a handler's I/O failure ends the session without a reply, `Bye`
+ends it — until the input is used up. Every C12 theorem of `Props/C12` is about `serve`. A statement added in front of the
+prologue test (seed C12-J: a start-up sweep of the tree), another accepted prologue (seed C12-K), a reply written for an
+unreadable frame change the translation. -/
+theorem source_serve_is_model (hash : Bytes → H) (short : H → List Char) (decode : Bytes → Option (Req H)) (inp : Bytes) (t : HTree) :
+    Copia.Gen.Loops.serveGen hash short decode (inp.length + 1) inp t = some (serve hash short decode inp t) :=
+  serveGen_eq hash short decode inp t
+
 end Copia.C12
